@@ -109,6 +109,20 @@ Definition run_session_case (x : session_case) : string :=
   both (show_list show_bytes "+" (session_wire (framing_of tcp) 0 calls))
        (show_list show_bytes "+" (ref_session_wire tcp 0 (map (fun z => (snd (fst z), snd z)) calls))).
 
+(* ---- C03: the complete byte stream of one connection with a scripted peer and transport:
+   (tcp?, [(style, kind, unit, start, count/value, values, cut (0 = none, k+1 = after k bytes), lost?)]) ---- *)
+Definition stream_case := (bool * list (N * N * N * N * N * vals * N * bool))%type.
+Definition run_stream_case (x : stream_case) : string :=
+  let '(tcp, l) := x in
+  let calls := map (fun y : N * N * N * N * N * vals * N * bool => let '(style, kind, uid, s, c, v, cut, lost) := y in
+                      (path_of style, uid, mk_call kind s c v,
+                       (if cut =? 0 then TxAll else TxCut (N.to_nat (cut - 1))),
+                       (if lost then [RxSkip; RxFail] else [RxSkip; RxReply]))) l in
+  let spec := map (fun y : N * N * N * N * N * vals * N * bool => let '(style, kind, uid, s, c, v, cut, lost) := y in
+                      (uid, mk_call kind s c v,
+                       {| cut_after := (if cut =? 0 then None else Some (N.to_nat (cut - 1))); connection_lost := lost |})) l in
+  both (show_bytes (session_stream (framing_of tcp) 0 calls)) (show_bytes (ref_session_stream tcp 0 spec)).
+
 (* ---- C04: (kind, start, count/value, reply pdu); the request is built as the API builds it.
    The PDU is passed as (length, big-endian number) - one hexadecimal literal parses much faster
    than a list of 250 numbers - and expanded here. ---- *)
